@@ -19,7 +19,11 @@ TRUSTED = [
     "code it pins by exact text (Span constructor plumbing, _check_periods, __hash__, to_ymd lookup) fails closed on any edit",
     "CPython datetime.date / calendar.monthrange are the calendar oracle: coq/lib/Calendar.v is compared with them "
     "(rolling digest over blocks of ordinals; every ordinal 1..3652059 in the thorough tier)",
-    "the dispatch over period classes, Span construction / indexing / slicing / resolution and the error classes are "
+    "Span.__init__ (defaults in the direction of the step, needs_resolve, final _check_periods) and Span.resolve (kept / resolved "
+    "end points, result built by the constructor) are symbolically executed into gen_span_init_* / gen_span_resolve; every other "
+    "builder of a Span (>> << of periods and spans, + -, reversed) is pinned to the constructor, and no other method may assign "
+    "_start/_end/_step/needs_resolve",
+    "the dispatch over period classes, Span indexing / slicing, truthiness of end points and the error classes are "
     "hand-modelled (model/Dates.v) and tied by exact correspondence only",
 ]
 ASSUMPTIONS = [
@@ -35,6 +39,8 @@ MANIFEST = {
                   "rejection of mixed frequencies, tiling of the calendar by consecutive regular periods for every year >= 1, "
                   "year/segment accessors vs calendar (daily: day of year), keyword shifts, Span enumeration / length / indexing / "
                   "shift / reversal / resolution coherence and the history invariant for every sequence of in-place mutations; "
+                  "Span.resolve rejects exactly the mixed-frequency resolutions and otherwise returns a one-frequency span, for every "
+                  "span and context, and every history of public operations incl. resolutions keeps resolved spans one-frequency; "
                   "lib/Period.v agrees with the generated fragments.",
     "level_note": "Trusted: Coq kernel + vm_compute, translator/dates.py, harness, CPython datetime as the calendar oracle. "
                   "Hand-modelled and tied by correspondence only: class dispatch, Span constructor/indexing/slicing, error classes.",
@@ -574,13 +580,69 @@ def run_hist(h: dict):
                 elif t == "reversed":
                     s = s.reversed()
                 elif t == "resolve":
-                    cx = types.SimpleNamespace(start_date=mk_py(act[1]), end_date=mk_py(act[2]))
-                    s = s.resolve(cx)
+                    s = s.resolve(mk_context(ir, act[1], act[2], act[3] if len(act) > 3 else "ns"))
                 out.append(observe(s, q))
             except Exception as e:  # noqa
                 out.append(("E", err_of(e)))
         return oL(out)
     return attempt(go)
+
+
+def mk_context(ir, ca, cb, kind: str):
+    """a resolution context whose start_date / end_date are the periods ca / cb, as one of the public kinds of context"""
+    a, b = mk_py(ca), mk_py(cb)
+    if kind == "ns":
+        return types.SimpleNamespace(start_date=a, end_date=b)
+    if kind == "rc":
+        return ir.dates.ResolutionContext(a, b)
+    if kind == "span":           # Span.start_date / end_date are its start / end, whatever the direction
+        return ir.Span(a, b, 1 if b - a >= 0 else -1)
+    if kind == "series":         # a Series observed from a to b  (needs a <= b)
+        import numpy as np
+        return ir.Series(start=a, values=np.arange(float(b - a + 1)))
+    raise AssertionError(kind)
+
+
+def gen_resolve_hist(rng) -> dict:
+    """a span with 0, 1 or 2 open / contextual ends, a few in-place mutations, then resolution against a context of the
+    same or of ANOTHER frequency (through every kind of context object), then more actions and a second resolution"""
+    f = rng.choice(FREQS)
+    a = rand_spec(rng, freq=f, lo=1800, hi=2200, sloppy=0)
+    step = rng.choice([1, 1, -1, -1, 2, 3, -2, -5])
+    b = shifted_spec(rng, a, rng.randint(0, 12) * (1 if step > 0 else -1))
+
+    def ctxep():
+        return ("ctx", rng.random() < 0.5, rng.randint(-3, 3))
+    shape = rng.choice(["a,None", "None,a", "a,ctx", "ctx,a", "None,None", "ctx,ctx", "a,b", "None,ctx", "ctx,None"])
+    ea, eb = {"a,None": (a, None), "None,a": (None, a), "a,ctx": (a, ctxep()), "ctx,a": (ctxep(), a), "None,None": (None, None),
+              "ctx,ctx": (ctxep(), ctxep()), "a,b": (a, b), "None,ctx": (None, ctxep()), "ctx,None": (ctxep(), None)}[shape]
+
+    def mut():
+        t = rng.choice(["reverse", "shift", "shift_start", "shift_end"])
+        return (t,) if t == "reverse" else (t, rng.randint(-4, 4))
+
+    def resolve_act():
+        r = rng.random()
+        g = f if r < 0.45 else rng.choice([x for x in FREQS if x != f])
+        ca = shifted_spec(rng, a, rng.randint(-6, 6)) if g == f else rand_spec(rng, freq=g, lo=1800, hi=2200, sloppy=0)
+        cb = shifted_spec(rng, ca, rng.randint(0, 14))
+        kind = rng.choice(["ns", "rc", "span", "series"])
+        if rng.random() < 0.15:        # a context whose two dates have different frequencies
+            h = rng.choice([x for x in FREQS if x != g])
+            cb = rand_spec(rng, freq=h, lo=1800, hi=2200, sloppy=0)
+            kind = rng.choice(["ns", "rc"])
+        elif kind == "span" and rng.random() < 0.3:
+            ca, cb = cb, ca            # a backward span as the context
+        return ("resolve", ca, cb, kind)
+    n_hint = 16
+    acts = [(mut(), rand_query(rng, n_hint)) for _ in range(rng.randint(0, 2))]
+    acts.append((resolve_act(), rand_query(rng, n_hint)))
+    for _ in range(rng.randint(0, 2)):
+        acts.append((mut() if rng.random() < 0.7 else rng.choice([("add", 2), ("sub", 3), ("reversed",), ("rsh", 2), ("lsh", -2)]),
+                     rand_query(rng, n_hint)))
+    if rng.random() < 0.6:
+        acts.append((resolve_act(), rand_query(rng, n_hint)))
+    return {"a": ea, "b": eb, "step": step, "q0": rand_query(rng, n_hint), "acts": acts, "shape": shape}
 
 
 def coq_act(act) -> str:
@@ -848,6 +910,28 @@ def correspondence(ctx) -> CorrResult:
             _bump(dist["errors"], "span:" + ERRNAME[o[1]])
         elif any(x[0] == "L" and x[1][2][0] == "L" and len(x[1][2][1]) >= 2 for x in o[1]):
             nontrivial.add(repr(h))
+    n_r = ctx.scale(700, 14000)
+    dist["resolve"] = {"shape": {}, "context": {}, "outcome": {}}
+    for _ in range(n_r):
+        h = gen_resolve_hist(rng)
+        o = run_hist(h)
+        if len(str(o)) > 80000:
+            _bump(dist, "skipped_long")
+            continue
+        items.append(("span:resolve", h, coq_hist(h), o))
+        _bump(dist["resolve"]["shape"], h["shape"])
+        k = 0
+        for j, (a, _) in enumerate(h["acts"]):
+            _bump(dist["span_actions"], a[0])
+            if a[0] == "resolve":
+                mixed_ctx = spec_freq(a[1]) != spec_freq(a[2])
+                _bump(dist["resolve"]["context"], a[3] + (":mixed-ends" if mixed_ctx else ""))
+                if o[0] == "L":
+                    r = o[1][j + 1]
+                    _bump(dist["resolve"]["outcome"], ERRNAME[r[1]] if r[0] == "E" else "resolved")
+                    k += r[0] != "E"
+        if k:
+            nontrivial.add(repr(h))
     for _ in range(n_e):
         c = gen_speq(rng)
         o = run_speq(c)
@@ -876,7 +960,10 @@ def correspondence(ctx) -> CorrResult:
     res.rule = ("period operation cases (constructor through the public yy/hh/qq/mm/dd/ii, then one of add/sub/compare/hash/"
                 "accessor/to_ymd/to_python_date/shift/from_ymd/periods_from_until/**), span histories (Span(...) with concrete, "
                 "contextual or missing end points, 2-8 actions among in-place reverse/shift/shift_start/shift_end and functional "
-                "+,-,>>,<<,reversed(),resolve(context); after every action: state, len, list, two indexings, one slice), span "
+                "+,-,>>,<<,reversed(),resolve(context); after every action: state, len, list, two indexings, one slice), directed "
+                "resolution histories (0/1/2 open or contextual ends, mutations, resolve against a context of the same or another "
+                "frequency given as SimpleNamespace / ResolutionContext / Span / Series or with two dates of different frequencies, "
+                "more actions, a second resolve), span "
                 "equality, and rolling digests of all accessors over blocks of consecutive periods / ordinals; non-trivial = "
                 "the implementation returned a value (not an error) and, for histories, some listing has >= 2 periods; "
                 "distinct = distinct case text")
@@ -914,6 +1001,8 @@ class Checker:
 
     def check(self, key: str, what: str, inp, snippet: str, required=None):
         self.count[key.split(":")[0]] = self.count.get(key.split(":")[0], 0) + 1
+        if key in self.keys:          # one failing input per call shape is enough
+            return
         r = run_snippet(snippet)
         if r is not None and key not in self.keys:
             self.keys.add(key)
@@ -945,6 +1034,129 @@ def expected_listing(a: int, e: int, c: int) -> list[int]:
         out.append(x)
         x += c
     return out
+
+
+CTX_KINDS = ["ns", "rc", "span", "series"]
+SERIES_ENTRY = ["x[sp]", "x(sp)", "x.get_data(sp)", "x.resolve_periods(sp)", "x.copy().set_data(sp, 1.0)",
+                "x.copy().cum_diff(span=sp)"]
+
+
+def py_context(kind: str, A: str, B: str) -> str:
+    """Python text building a resolution context with start_date = A and end_date = B (A <= B, one frequency)"""
+    return {"ns": f"types.SimpleNamespace(start_date={A}, end_date={B})",
+            "rc": f"ir.dates.ResolutionContext({A}, {B})",
+            "span": f"ir.Span({A}, {B})",
+            "series": f"ir.Series(start={A}, values=np.arange(float(({B}) - ({A}) + 1)))"}[kind]
+
+
+REJECTED = ("try:\n    r = {call}\nexcept Exception as e:\n    r = e\n"
+            "assert isinstance(r, Exception), 'not rejected: ' + repr(sp) + ' -> ' + repr(r)[:200]")
+
+
+def falsify_resolution(ctx, ck):
+    rng = ctx.rng
+    pairs = [(f, g) for f in FREQS for g in FREQS] + [(f, f) for f in FREQS] * 3
+    rounds = ctx.scale(3, 20)
+    for rnd in range(rounds):
+        for f, g in pairs:
+            p = rand_spec(rng, freq=f, lo=1800, hi=2200, sloppy=0)
+            cs = shifted_spec(rng, p, rng.randint(-6, 6)) if f == g else rand_spec(rng, freq=g, lo=1800, hi=2200, sloppy=0)
+            n = rng.randint(0, 14)
+            ce = shifted_spec(rng, cs, n)
+            P, A, B = py_spec(p), py_spec(cs), py_spec(ce)
+            c = rng.choice([1, 2, 3, 5])
+            k = rng.randint(-3, 3)
+            # (text, which end is fixed, context date used on the open side, offset on it, step)
+            shapes = [("p >> None", "start", "end", 0, 1), ("None >> p", "end", "start", 0, 1),
+                      ("p << None", "end", "end", 0, -1), ("None << p", "start", "start", 0, -1),
+                      (f"ir.Span(p, None, {c})", "start", "end", 0, c), (f"ir.Span(None, p, {c})", "end", "start", 0, c),
+                      (f"ir.Span(p, None, {-c})", "start", "start", 0, -c), (f"ir.Span(None, p, {-c})", "end", "end", 0, -c),
+                      (f"ir.Span(p, ir.end + {k}, {c})", "start", "end", k, c),
+                      (f"ir.Span(ir.start + {k}, p, {c})", "end", "start", k, c),
+                      (f"ir.Span(p, ir.start + {-k}, {-c})", "start", "start", -k, -c),
+                      (f"ir.Span(ir.end + {-k}, p, {-c})", "end", "end", -k, -c),
+                      (f"(p >> None) >> {c}", "start", "end", 0, c), (f"(None >> p) + {k}", "end", "start", k, 1)]
+            text, fixed, side, off, step = shapes[rng.randrange(len(shapes))] if rng.random() < 0.5 \
+                else rng.choice(shapes)
+            pk = k if text.endswith(f") + {k}") else 0            # the fixed end moved by the functional shift
+            kind = rng.choice(CTX_KINDS)
+            pre = (f"import numpy as np\np = {P}; a = {A}; b = {B}\ncx = {py_context(kind, 'a', 'b')}\nsp = {text}\n"
+                   "assert sp.needs_resolve and not sp\n")
+            inp = {"span": text, "p": P, "context": kind, "start_date": A, "end_date": B}
+            if f != g:
+                ck.check(f"mixed:resolve:{kind}", "an open-ended span with a fixed end of one frequency resolved against a context "
+                         "of another frequency is not rejected", inp, pre + REJECTED.format(call="sp.resolve(cx)"))
+                # after in-place mutations of the open span
+                ck.check("mixed:resolve:mutated", "a mutated open-ended span resolved against a context of another frequency is "
+                         "not rejected", inp, pre + f"sp.shift({k}); sp.reverse(); sp.shift_end(1)\n"
+                         + REJECTED.format(call="sp.resolve(cx)"))
+                entry = rng.choice(SERIES_ENTRY)
+                ck.check(f"mixed:resolve:{entry}", "a Series method given an open-ended span whose fixed end has another frequency "
+                         "than the series does not reject it", dict(inp, context="series", call=entry),
+                         f"import numpy as np\np = {P}; a = {A}; b = {B}\nx = {py_context('series', 'a', 'b')}\nsp = {text}\n"
+                         + REJECTED.format(call=entry))
+            else:
+                want_fixed = f"p + {pk}"
+                want_open = f"{'a' if side == 'start' else 'b'} + {off}"
+                ws, we = (want_fixed, want_open) if fixed == "start" else (want_open, want_fixed)
+                ck.check(f"span:resolve_open:{kind}", "a half-open span resolved against a context of its own frequency does not "
+                         "agree with the explicit span (ends, frequency, length, listing, indexing)", inp,
+                         pre + f"r = sp.resolve(cx)\nassert not r.needs_resolve and bool(r)\n"
+                               f"assert r.start == {ws} and r.end == {we} and r.step == {step}, repr(r)\n"
+                               "assert type(r.start) is type(r.end) is type(p) and r.frequency == p.frequency\n"
+                               "ex = ir.Span(r.start, r.end, r.step)\n"
+                               "assert r == ex and list(r) == list(ex) and len(r) == len(ex) == len(list(r))\n"
+                               "assert all(type(t) is type(p) for t in r) and all(r[i] == t for i, t in enumerate(ex))\n"
+                               "assert sp.needs_resolve, 'resolve changed the open span itself'")
+            # a context whose own two dates have different frequencies, fully open span (both dates are used)
+            if f != g:
+                ckind = rng.choice(["ns", "rc"])
+                cxt = {"ns": "types.SimpleNamespace(start_date=p, end_date=a)", "rc": "ir.dates.ResolutionContext(p, a)"}[ckind]
+                op = rng.choice(["ir.Span(None, None)", f"ir.Span(None, None, {-c})", f"ir.Span(ir.start + {k}, ir.end - 1, {c})",
+                                 f"ir.Span(ir.end, ir.start + {k}, {-c})"])
+                ck.check("mixed:resolve:context-ends", "a fully open span resolved against a context whose start and end dates "
+                         "have different frequencies is not rejected", {"span": op, "start_date": P, "end_date": A, "context": ckind},
+                         f"p = {P}; a = {A}\ncx = {cxt}\nsp = {op}\n" + REJECTED.format(call="sp.resolve(cx)"))
+    # histories of public operations with resolutions against contexts of random frequencies: whatever happens, a span
+    # that says it is resolved has two ends of one frequency (the very pair is accepted by the constructor) and lists it
+    for it in range(ctx.scale(250, 2500)):
+        f = rng.choice(FREQS)
+        p = rand_spec(rng, freq=f, lo=1800, hi=2200, sloppy=0)
+        c = rng.choice([1, 1, -1, 2, -3])
+        ctor = rng.choice(["ir.Span(p, None, {c})", "ir.Span(None, p, {c})", "ir.Span(None, None, {c})", "ir.Span(p, ir.end + 2, {c})",
+                           "ir.Span(ir.start - 1, p, {c})", "ir.Span(p, p + 7, {c})", "ir.Span(ir.start, ir.end - 1, {c})"]).format(c=c)
+        lines, ops = [], []
+        for j in range(rng.randint(2, 6)):
+            r = rng.random()
+            kk = rng.randint(-4, 4)
+            if r < 0.45:
+                g = f if rng.random() < 0.4 else rng.choice(FREQS)
+                a = shifted_spec(rng, p, rng.randint(-5, 5)) if g == f else rand_spec(rng, freq=g, lo=1800, hi=2200, sloppy=0)
+                b = shifted_spec(rng, a, rng.randint(0, 9))
+                if rng.random() < 0.12:
+                    b = rand_spec(rng, freq=rng.choice(FREQS), lo=1800, hi=2200, sloppy=0)
+                    kind = rng.choice(["ns", "rc"])
+                else:
+                    kind = rng.choice(CTX_KINDS)
+                op = f"sp = sp.resolve({py_context(kind, py_spec(a), py_spec(b))})"
+            elif r < 0.75:
+                op = rng.choice([f"sp.shift({kk})", "sp.reverse()", f"sp.shift_start({kk})", f"sp.shift_end({kk})"])
+            else:
+                op = rng.choice([f"sp = sp + {kk}", f"sp = sp - {kk}", "sp = sp.reversed()", f"sp = sp >> {abs(kk) + 1}",
+                                 f"sp = sp << {-abs(kk) - 1}"])
+            ops.append(op)
+            lines.append(f"try:\n    {op}\nexcept Exception as e:\n    pass\ninv(sp, {j})")
+        ck.check("mixed:history", "after a sequence of public span operations (with resolutions against contexts of other "
+                 "frequencies) a span that claims to be resolved has ends / periods of different frequencies",
+                 {"p": py_spec(p), "span": ctor, "ops": ops},
+                 f"import numpy as np\np = {py_spec(p)}\nsp = {ctor}\n"
+                 "def inv(sp, j):\n"
+                 "    if sp.needs_resolve:\n        return\n"
+                 "    assert type(sp.start) is type(sp.end), (j, repr(sp))\n"
+                 "    assert sp.start.frequency == sp.end.frequency == sp.frequency, (j, repr(sp))\n"
+                 "    ex = ir.Span(sp.start, sp.end, sp.step)      # the constructor accepts exactly this pair\n"
+                 "    assert ex == sp and len(ex) == len(sp) and all(type(t) is type(sp.start) for t in sp), (j, repr(sp))\n"
+                 "inv(sp, -1)\n" + "\n".join(lines))
 
 
 def falsify(ctx, hints):
@@ -1114,6 +1326,9 @@ def falsify(ctx, hints):
                  f"assert b.start == p + {o1} and b.end == e + {o2} and not b.needs_resolve\n"
                  f"h = ir.Span(None, e, {abs(c)}); h.shift(2); h.reverse(); g = h.resolve(cx)\n"
                  f"h2 = ir.Span(None, e, {abs(c)}).resolve(cx); h2.shift(2); h2.reverse(); assert g == h2 and list(g) == list(h2)")
+    # 7. open-ended spans resolved against contexts of EVERY frequency, through every public entry point that resolves a
+    #    span: mixing frequencies must be rejected, a same-frequency resolution must agree with the explicit span
+    falsify_resolution(ctx, ck)
     # exhaustive calendar sweep (thorough tier: every regular period of years 2..9998, every 7th day)
     if ctx.thorough:
         one = dt.timedelta(days=1)
